@@ -8,6 +8,7 @@ Decides only:
      no-error case prints the plain value, CObs formats both parts
 """
 import ast
+import re
 
 import sympy as sp
 
@@ -163,6 +164,69 @@ def d1_decimals(ctx, obs):
 
 def const_str(e):
     return e.value if isinstance(e, ast.Constant) and isinstance(e.value, str) else None
+
+
+def d1b_format_evaluated(ctx, obs, rule='C19-D1'):
+    """_format_uncertainty is a pure function of three numbers: the extracted function is evaluated (numpy for floor / log10 / isfinite)
+    on a grid of values, errors (mantissas next to the rounding boundaries, 13 decades) and significances 1..4.  Required of every
+    printed `v(e)`: the unit of the last printed digit is at most the one that shows the error to the requested significant digits,
+    and reading back v and e recovers value and error within half of that unit."""
+    import copy as _copy
+    import math as _math
+    f = obs.func('_format_uncertainty')
+    key = 'obs.py:_format_uncertainty#evaluated'
+    if any(isinstance(x, (ast.Import, ast.ImportFrom, ast.Global, ast.While, ast.With, ast.Try, ast.Lambda)) for x in walk(f)):
+        ctx.unrec(rule, key, 'not a plain formatting function: not evaluated', obs.loc(f))
+        return
+    try:
+        import numpy as _np
+    except Exception as ex_:
+        ctx.unrec(rule, key, 'numpy unavailable: %r' % ex_)
+        return
+    safe = {'str': str, 'int': int, 'float': float, 'isinstance': isinstance, 'max': max, 'min': min, 'abs': abs, 'round': round, 'len': len, 'format': format, 'TypeError': TypeError,
+            'ValueError': ValueError, 'bool': bool}
+    try:
+        g = _copy.deepcopy(f)
+        g.decorator_list = []
+        ns = {'__builtins__': safe, 'np': _np}
+        exec(compile(ast.fix_missing_locations(ast.Module(body=[g], type_ignores=[])), '<format_uncertainty>', 'exec'), ns)
+        fn = ns[f.name]
+    except Exception as ex_:
+        ctx.unrec(rule, key, 'cannot evaluate: %r' % ex_, obs.loc(f))
+        return
+    wrong = []
+    count = 0
+    for sig in (1, 2, 3, 4):
+        for dec in range(-6, 7):
+            for man in (1.0, 1.04, 1.5, 2.5, 4.99, 9.4, 9.6, 9.96, 9.996):
+                dv = man * 10.0 ** dec
+                for val in (0.0, 1.2345678, -31.41592653, 0.000271828, 98765.4321):
+                    count += 1
+                    try:
+                        out = fn(val, dv, sig)
+                    except NameError as ex_:
+                        ctx.unrec(rule, key, 'cannot evaluate: %r' % ex_, obs.loc(f))
+                        return
+                    except Exception as ex_:
+                        wrong.append((val, dv, sig, 'raised %r' % ex_))
+                        continue
+                    m_ = re.fullmatch(r'\s*(-?\d+(?:\.(\d+))?)\((\d+(?:\.\d+)?)\)', out) if isinstance(out, str) else None
+                    if not m_:
+                        wrong.append((val, dv, sig, 'unparsable %r' % (out,)))
+                        continue
+                    d = len(m_.group(2) or '')
+                    e_txt = m_.group(3)
+                    e_print = float(e_txt) if '.' in e_txt else float(e_txt) * 10.0 ** (-d)
+                    v_print = float(m_.group(1))
+                    need = max(0, sig - 1 - _math.floor(_math.log10(dv) + 1e-12))
+                    unit = 10.0 ** (-d)
+                    if d < need:
+                        wrong.append((val, dv, sig, '%s shows the error to fewer than %d significant digits' % (out, sig)))
+                    elif abs(e_print - dv) > 0.5 * unit * (1 + 1e-6) + 1e-12 * dv or abs(v_print - val) > 0.5 * unit * (1 + 1e-6) + 1e-12 * abs(val):
+                        wrong.append((val, dv, sig, '%s does not recover value / error within half a unit of the last digit' % out))
+    ctx.check(rule, key, not wrong, 'every printed value(error) shows the error to the requested significant digits and recovers both numbers within half a unit of the last digit (%d cases)' % count,
+              '_format_uncertainty(%r, %r, %d): %s%s' % (wrong[0] + (' (%d more cases)' % (len(wrong) - 1) if len(wrong) > 1 else '',)) if wrong else '', obs.loc(f))
+    ctx.info['format_uncertainty_cases'] = count
 
 
 def d2_prior(ctx, rule='C19-D2'):
@@ -431,6 +495,7 @@ def run(ctx):
     ctx.not_decided += ['rounding carries of the float formatter', 'the half-unit bound of the round trip']
     obs = ctx.repo.mod('obs')
     ctx.guarded('C19-D1', 'obs.py:_format_uncertainty', d1_decimals, ctx, obs)
+    ctx.guarded('C19-D1', 'obs.py:_format_uncertainty@evaluated', d1b_format_evaluated, ctx, obs)
     ctx.guarded('C19-D2', 'fits.py:_extract_val_and_dval', d2_prior, ctx)
     ctx.guarded('C19-D3', 'obs.py:Obs.__format__', d3_flags, ctx, obs)
     ctx.guarded('C19-D4', 'obs.py@views', d4_views, ctx, obs)
